@@ -4,7 +4,7 @@
    Not proved here: the "few ulps" accuracy of the f64 instantiation for the code's own arithmetic
    (tie + search; see cmul_rounding_bound below for the rounding-model statement, if present). *)
 From Coq Require Import List Arith Bool Ring_theory Field_theory QArith Qcanon.
-From OV Require Import Base.Panic Base.Arith Model.Complex Inst.QcInst Inst.FloatInst Proofs.Complex Proofs.ComplexQc Proofs.ComplexFloat.
+From OV Require Import Base.Panic Base.Arith Model.Complex Inst.QcInst Inst.FloatInst Proofs.Complex Proofs.ComplexQc Proofs.ComplexFloat Proofs.ComplexField.
 
 (* ---- Complex F is the commutative ring F[i] ---- *)
 Theorem complex_ring : forall A : Arith,
@@ -117,6 +117,19 @@ Check cdiv_one : forall (A : Arith) (F : FieldLaws A) (z : cplx A),
   cdiv z cone = Ok z /\ cdiv_r z one = Ok z.
 Print Assumptions cdiv_one.
 
+(* Complex F is a field when F is a formally real field (Q, R): usable with `Add Field` and, through
+   CFieldLaws, by every theorem of the development stated for `FieldLaws A` *)
+Theorem complex_field : forall (A : Arith) (F : FieldLaws A), formally_real A ->
+  field_theory (@czero A) cone cadd cmul csub cneg (cdivt F) (cinv F) eq /\
+  (forall z w : cplx A, cdiv z w = if ceqb w czero then Panic DivZero else Ok (cmul z (cinv F w))).
+Proof. intros A F FR. split; [exact (complex_field_lemma F FR) | exact (cdiv_field_lemma F FR)]. Qed.
+Check complex_field : forall (A : Arith) (F : FieldLaws A), formally_real A ->
+  field_theory (@czero A) cone cadd cmul csub cneg (cdivt F) (cinv F) eq /\
+  (forall z w : cplx A, cdiv z w = if ceqb w czero then Panic DivZero else Ok (cmul z (cinv F w))).
+Print Assumptions complex_field.
+Example complex_field_nonvacuous : exists F : FieldLaws AQ, formally_real AQ.
+Proof. exists AQ_FieldLaws. exact AQ_formally_real. Qed.
+
 (* ---- the compound-assignment forms (statement sequences of the source) equal the binary forms ---- *)
 Theorem assign_eq_binary : forall A : Arith, (forall x y : A, add x y = add y x) ->
   forall (z w : cplx A) (r : A),
@@ -206,6 +219,13 @@ Theorem complex_Qc_ring : ring_theory (@czero AQ) cone cadd cmul csub cneg eq.
 Proof. exact (complex_ring_lemma AQ_ring). Qed.
 Check complex_Qc_ring : ring_theory (@czero AQ) cone cadd cmul csub cneg eq.
 Print Assumptions complex_Qc_ring.
+
+Theorem complex_Qc_field :
+  field_theory (@czero AQ) cone cadd cmul csub cneg (cdivt AQ_FieldLaws) (cinv AQ_FieldLaws) eq.
+Proof. exact complex_Qc_field_lemma. Qed.
+Check complex_Qc_field :
+  field_theory (@czero AQ) cone cadd cmul csub cneg (cdivt AQ_FieldLaws) (cinv AQ_FieldLaws) eq.
+Print Assumptions complex_Qc_field.
 
 Theorem cdiv_Qc : forall z w : cplx AQ,
   (w <> czero -> exists q, cdiv z w = Ok q /\ cmul q w = z) /\
